@@ -145,8 +145,10 @@ void family_pool() {
         for (int j = 0; j < nj; j++) th.emplace_back([&pool, j, pin = &in[j], pout = &out[j], pout2 = &out2[j]] {
             *pin = 10 + j;
             if (j % 2 == 0) {
-                auto f = pool.run([pin, pout] { *pout = *pin * 3; return *pin; });
-                try { long r = f.wait(); if (r != 10 + j || *pout != (10 + j) * 3) dsim::fail("C03.payload", "pool.run result %ld out %ld", r, *pout); } catch (const cocls::await_canceled_exception &) {}
+                auto f = pool.run([pin, pout, j] { *pout = *pin * 3; if (j == 2) throw vs::TestError(*pin); return *pin; });      // the third job reports an exception across threads
+                try { long r = f.wait(); if (j == 2 || r != 10 + j || *pout != (10 + j) * 3) dsim::fail("C03.payload", "pool.run result %ld out %ld", r, *pout); }
+                catch (const cocls::await_canceled_exception &) {}
+                catch (const vs::TestError &e) { if (j != 2 || e.code != 12 || *pout != 36) dsim::fail("C03.payload", "pool.run exception code %ld out %ld", e.code, *pout); }
             } else {
                 auto f = pool_coro(pool, pin, pout2).start();
                 long r = f.wait(); if (r != 11 + j || (*pout2 != (10 + j) * 2 && *pout2 != -1)) dsim::fail("C03.payload", "pool coroutine result %ld out %ld", r, *pout2);
@@ -190,11 +192,12 @@ void family_scheduler() {
 cocls::async<void> sub_coro(cocls::subscriber<Msg> &s) { for (;;) { bool ok = co_await s.next(); if (!ok) break; dsim::cell_add(SUM, s.value().check() > 0 ? 1 : 0); } }
 void family_publisher() {
     int ns = 1 + dsim::choose(2), np = 1 + dsim::choose(4); int kind[2] = {(int)dsim::choose(2), (int)dsim::choose(2)};
-    dsim::plan_note("publisher: subscribers=%d publishes=%d", ns, np);
+    int mode[2] = {(int)dsim::choose(3), (int)dsim::choose(3)};      // all_values, skip_if_behind, skip_to_recent
+    dsim::plan_note("publisher: subscribers=%d publishes=%d modes=%d%d", ns, np, mode[0], mode[1]);
     cocls::publisher<Msg> pub(4, 1);
     std::vector<std::thread> th;
-    for (int i = 0; i < ns; i++) th.emplace_back([&pub, i, k = kind[i]] {
-        cocls::subscriber<Msg> s(pub);
+    for (int i = 0; i < ns; i++) th.emplace_back([&pub, i, k = kind[i], m = mode[i]] {
+        cocls::subscriber<Msg> s(pub, m == 0 ? cocls::subscribtion_type::all_values : m == 1 ? cocls::subscribtion_type::skip_if_behind : cocls::subscribtion_type::skip_to_recent);
         dsim::cell_add(OBS + 8, 1);
         if (k) sub_coro(s).join(); else while (s.next()) { s.value().check(); dsim::cell_add(SUM, 1); }
     });
